@@ -156,7 +156,7 @@ def interpreted_decorator(repo: Repo, rep: Report):
     way, what comes out must be NetworkXNotImplemented: not a KeyError from a lookup made for the message, not an IndexError
     from args[0], not a return."""
     from .ordertype import OrderType
-    from .absint import Interp, Const, TupleV, DictObj, AbstractRaise, Unsupported, BoundMethod, Builtin, LocalFuncV, SelfV, Opaque
+    from .absint import Interp, Const, TupleV, DictObj, AbstractRaise, Unsupported, BoundMethod, Builtin, LocalFuncV, SelfV, Opaque, run_all_choices
     from .query_check import QueryWorld, SHAPES
 
     class W(QueryWorld):
@@ -218,32 +218,38 @@ def interpreted_decorator(repo: Repo, rep: Report):
     cls = "DynGraph"
     n = 0
     for name, qual, rel, params in stubs:
-        values = [SelfV()] + [Const(None)] * (len(params) - 1) if params else []
+        # the graph where the stub takes one (self / G / graph first), plain data everywhere else
+        values = [(SelfV() if (i == 0 and p_ in ("self", "G", "g", "graph")) else (DictObj() if i == 0 else Const(None))) for i, p_ in enumerate(params)]
         for label, call_args, call_kwargs in (("called with positional arguments", values, {}),
                                               ("called with every argument given by keyword", [], dict(zip(params, values)))):
-            world = W(cls, SHAPES[False][0], {}, repo.class_methods(CLASSES[cls], cls), repo.functions(DECORATORS))
-            world.current_rel = DECORATORS
-            world.stub_called = False
-            ip = Interp(world, OrderType([["t"]], [], 2), max_depth=8)
+            def once(ch):
+                world = W(cls, SHAPES[False][0], ch, repo.class_methods(CLASSES[cls], cls), repo.functions(DECORATORS))
+                world.current_rel = DECORATORS
+                world.stub_called = False
+                ip = Interp(world, OrderType([["t"]], [], 2), max_depth=8)
+                try:
+                    from .absint import _bind
+                    deco = ip.call_function(outer, _bind(outer, [], {}, ip, outer))        # @not_implemented(): no arguments
+                    wrapped = ip.apply_value(deco, [_StubV(name, qual, params)], outer)
+                    if isinstance(wrapped, LocalFuncV):
+                        ip.call_local(wrapped, list(call_args), dict(call_kwargs), outer)
+                    elif call_kwargs:
+                        ip.apply_value(wrapped, list(call_args), outer, kwargs=dict(call_kwargs))
+                    else:
+                        ip.apply_value(wrapped, list(call_args), outer)
+                    outcome = "returns"
+                except AbstractRaise as r:
+                    outcome = r.exc
+                if world.stub_called:
+                    outcome = "calls the blocked function"
+                return outcome
             n += 1
             try:
-                deco = ip.call_function(outer, {})
-                wrapped = ip.apply_value(deco, [_StubV(name, qual, params)], outer)
-                if isinstance(wrapped, LocalFuncV):
-                    ip.call_local(wrapped, list(call_args), dict(call_kwargs), outer)
-                elif call_kwargs:
-                    ip.apply_value(wrapped, list(call_args), outer, kwargs=dict(call_kwargs))
-                else:
-                    ip.apply_value(wrapped, list(call_args), outer)
-                outcome = "returns"
-            except AbstractRaise as r:
-                outcome = r.exc
+                outcomes = {o for _, o in run_all_choices(once, max_runs=16)}
             except Unsupported as ex:
                 rep.stats["B1.interpretation"] = "abstained for %s: %s" % (qual, ex)       # the syntactic half of B1 stands alone
                 continue
-            if world.stub_called:
-                outcome = "calls the blocked function"
-            if outcome != "NetworkXNotImplemented":
+            for outcome in sorted(outcomes - {"NetworkXNotImplemented"}):
                 rep.finding("B1.decorator", repo.construct(DECORATORS, "not_implemented"), "stub:%s:%s" % (qual, outcome),
                             "the blocked %s (%s), %s, %s instead of raising NetworkXNotImplemented" % (
                                 qual, rel, label, "returns normally" if outcome == "returns" else (
